@@ -52,6 +52,8 @@ package inspector
 //@   replay inspector_body_alias : r.ContentLength
 //@   requires r != nil && profile != nil && bi != nil
 //@   requires ghost(r.Body).backing == 0
+// the request body is peeked at through a size-capped reader only
+//@   at call Copy 1 assert ghost(limitedReader).limited
 //@   modifies r.Body, profile.ModelName, profile.ModelCapabilities, ghost backing, ghost released, ghost remaining
 //@   ensures ghost(r.Body).backing == 0 || !ghost(ghost(r.Body).backing).released
 
